@@ -158,9 +158,10 @@ func build(p propDef) (string, error) {
 }
 
 type shardResult struct {
-	recs     []record
-	crashes  []found
-	restarts int
+	recs      []record
+	crashes   []found
+	abandoned bool // given up after a watchdog kill
+	restarts  int
 }
 
 // runShard runs one shard to completion, restarting after crashes.
@@ -231,6 +232,17 @@ func runShard(bin string, p propDef, tier string, seed int64, shard, nshards int
 		if only != "" {
 			res.recs = readJSONL(jsonl)
 			return res
+		}
+		// a case that ran into the child's watchdog is already a violation of this run; a tree that wedges
+		// one case usually wedges many, and each would cost the full watchdog (10 minutes and more): the
+		// shard is given up after its first one (counted in the evidence)
+		for _, cr := range res.crashes {
+			if strings.HasPrefix(cr.Sig, "crash:watchdog") {
+				res.abandoned = true
+			}
+		}
+		if res.abandoned {
+			break
 		}
 	}
 	res.recs = readJSONL(jsonl)
@@ -523,6 +535,9 @@ func runProp(p propDef, tier string, seed int64, only string) int {
 			all = append(all, cr)
 		}
 		counts["child_restarts"] += r.restarts
+		if r.abandoned {
+			counts["shards_given_up_after_watchdog"]++
+		}
 		for _, rec := range r.recs {
 			switch rec.T {
 			case "meta":
